@@ -120,7 +120,7 @@ class Evaluator:
             if e['k'] in ('var', 'mem') or (e['k'] == 'cast' and ir.is_expr(e.get('e')) and ir.strip(e['e'])['k'] in ('var', 'mem')):
                 return     # (void) x;  -- a discarded read
             if e['k'] == 'call' and e.get('op') == '=' and ir.is_expr(e.get('obj')) and len(e.get('args', [])) == 1 and \
-                    (e.get('fn') is None or self.F.fn(e['fn']) is None or self.F.fn(e['fn']).d.get('implicit')):
+                    (e.get('fn') is None or self.F.fn(e['fn']) is None or self.F.fn(e['fn']).d.get('implicit') or self.F.fn(e['fn']).d.get('defaulted')):
                 # implicit (member-wise) copy / move assignment of a value object
                 tgt = self.raw(self.ev(e['obj'], fn, this, env, depth))
                 src = self.raw(self.ev(e['args'][0], fn, this, env, depth))
